@@ -2133,7 +2133,7 @@ void ScriptEmitter::ProcessContinueJumpLocations(int iStartContinueJumpLocCount)
 
             const op_offset_t offset = (op_offset_t)(code_pos() - sizeof(op_offset_t) - apucContinueJumpLocations[iContinueJumpLocCount]);
 
-            manager.SetValueAtCodePosition(apucContinueJumpLocations[iBreakJumpLocCount], &offset, sizeof(offset));
+            manager.SetValueAtCodePosition(apucContinueJumpLocations[iContinueJumpLocCount], &offset, sizeof(offset));
         } while (iContinueJumpLocCount > iStartContinueJumpLocCount);
 
         ClearPrevOpcode();
